@@ -270,9 +270,117 @@ def scn_eval_cache(T, case):
                 T.prove("C07.evaluator.gradient_differences_use_the_function_value_at_the_requested_point", T.same(v_[0], f(pt[0] + S[0, 0, 0]) - f(pt[0])))
 
 
+# ------------------------------------------------------------------------------------ base case: start() begins a run with an empty cache
+def cases_start(tier):
+    for method in ("slsqp", "nelder-mead", "differential_evolution") + (("l-bfgs-b", "cobyla") if tier == "thorough" else ()):
+        for K in (0, 1):
+            if K and method in ("nelder-mead", "l-bfgs-b"):
+                continue
+            for mask in (None, [True, True, False]):
+                for cached in ((True, True, True), (True, True, False), (False, False, False)):
+                    if method in NO_GRADIENT and cached[2]:
+                        continue
+                    yield "%s/K%d/mask=%s/cache-left-by-the-previous-run=%s" % (method, K, mask, "".join("1" if c else "0" for c in cached)), {
+                        "method": method, "K": K, "mask": mask, "cached": list(cached)}
+
+
+def scn_start(T, case):
+    """Base case of the induction: whatever an earlier run left in the caches (values of the ensemble *of that run* at a point
+    whose free variables coincide with the new starting point), the first requests of the new run are answered with the values
+    of the ensemble of this run."""
+    method, K = case["method"], case["K"]
+    handed = {}
+
+    def fake_minimize(**kw):
+        handed.update(kw)
+        handed["kind"] = "minimize"
+
+    def fake_de(**kw):
+        handed.update(kw)
+        handed["kind"] = "de"
+
+    stubs = {(MS, "minimize"): fake_minimize, (MS, "differential_evolution"): fake_de}
+    saved = None
+    if T.symbolic:
+        sh = T.shadow([MS, MU], stubs)
+        cls = T.under_contract(sh, MS, "SciPyOptimizer", stubs)
+        T.under_contract(sh, MS, "SciPyOptimizer.start", stubs)
+        NC = T.under_contract(sh, MU, "NormalizedConstraints")
+    else:
+        import importlib
+
+        real = importlib.import_module(MS)
+        saved = {k[1]: getattr(real, k[1]) for k in stubs}
+        for k, v in stubs.items():
+            setattr(real, k[1], v)
+        cls = T.func(MS, "SciPyOptimizer")
+        NC = T.func(MU, "NormalizedConstraints")
+    try:
+        Fold, Gold = _F(T, K)
+        fs = [T.uf("Fnew%d" % j, N) for j in range(1 + K)]
+        gs = [[T.uf("Gnew%d_%d" % (j, i), N) for i in range(N)] for j in range(1 + K)]
+        Fnew = lambda x: T.np.array([f(x[0], x[1]) for f in fs])  # noqa: E731
+        Gnew = lambda x: T.np.array([[g(x[0], x[1]) for g in row] for row in gs])  # noqa: E731
+        if case["mask"] is None:
+            # every variable is free: the optimizer sees the whole point, so the ensemble of this run is the same function of
+            # what the optimizer sees as before (only the value clauses are required then, not a fresh evaluation)
+            Fnew, Gnew = Fold, Gold
+        calls = []
+
+        def callback(variables, *, return_functions, return_gradients):
+            calls.append((return_functions, return_gradients))
+            return (Fnew(variables) if return_functions else T.np.array([])), (Gnew(variables) if return_gradients else T.np.array([]))
+
+        mask = None if case["mask"] is None else np.array(case["mask"], dtype=bool)
+        opt = object.__new__(cls)
+        opt._config = types.SimpleNamespace(optimizer=types.SimpleNamespace(speculative=False, split_evaluations=False, tolerance=None, parallel=False),
+                                            nonlinear_constraints=types.SimpleNamespace() if K else None, variables=types.SimpleNamespace(mask=mask))
+        opt._method = method
+        opt._parallel = False
+        opt._optimizer_callback = callback
+        opt._bounds = None
+        opt._options = {}
+        nlb, nub = [0.0] * K, [np.inf] * K
+        opt._normalized_constraints = NC(np.array(nlb), np.array(nub)) if K else None
+        x0free = T.real("x0", (N,))
+        initial = x0free if mask is None else T.np.array([x0free[0], x0free[1], T.real("fixed", ())])
+        has_cv, has_cf, has_cg = case["cached"]
+        opt._cached_variables = x0free.copy() if has_cv else None
+        opt._cached_function = Fold(x0free) if has_cf else None
+        opt._cached_gradient = Gold(x0free) if has_cg else None
+        if K and has_cf:
+            ref = NC(np.array(nlb), np.array(nub))
+            ref.set_constraints(Fold(x0free)[1:])
+            opt._normalized_constraints._constraints = ref.constraints
+        opt._constraints = ({"type": "ineq", "fun": lambda x: opt._fun(x, 0, None), "jac": lambda x: opt._jac(x, 0, None)},) if K else ()
+        opt.start(initial)
+        T.prove("C07.start.an_algorithm_is_started", "kind" in handed)
+        if "kind" not in handed:
+            return
+        fun = handed["fun"] if handed["kind"] == "minimize" else handed["func"]
+        T.prove("C07.start.starting_point_is_the_free_part_of_the_initial_values", T.same(handed["x0"], x0free))
+        got = fun(handed["x0"])
+        T.prove("C07.start.first_objective_of_a_run_is_the_value_of_this_run", T.same(got, Fnew(x0free)[0]))
+        if case["mask"] is not None:
+            T.prove("C07.start.first_request_of_a_run_is_evaluated", sum(1 for rf, rg in calls if rf) == 1)
+        if K:
+            gotc = opt._fun(handed["x0"], 0, None)
+            ref = NC(np.array(nlb), np.array(nub))
+            ref.set_constraints(Fnew(x0free)[1:])
+            T.prove("C07.start.first_constraint_value_of_a_run_is_the_value_of_this_run", T.same(gotc, ref.constraints[0, :]))
+        if method not in NO_GRADIENT:
+            gotg = handed["jac"](handed["x0"])
+            T.prove("C07.start.first_gradient_of_a_run_is_the_gradient_of_this_run", T.same(gotg, Gnew(x0free)[0, :]))
+    finally:
+        if saved is not None:
+            for k, v in saved.items():
+                setattr(real, k, v)
+
+
 SCENARIOS = [
     Scenario("optimizer_callables_from_any_state", scn_ops, cases_ops, {"quick": 3, "thorough": 20}),
     Scenario("evaluator_function_cache", scn_eval_cache, cases_eval_cache, {"quick": 5, "thorough": 30}),
+    Scenario("start_begins_with_an_empty_cache", scn_start, cases_start, {"quick": 3, "thorough": 20}),
 ]
 
 MANIFEST = {
